@@ -60,16 +60,28 @@ func resolveAT(r *core.Run, rule string) *atWorld {
 		return nil
 	}
 	r.Fn(a.commit)
-	// the function(s) between Commit and the flush call that hold the protocol steps
-	for _, f := range reachFrom(w, []*core.FuncInfo{a.commit}, pDSSQL) {
-		if f.Pkg.PkgPath != pDSSQL {
+	// the function that holds the protocol steps: under Commit, the deepest function of the package from which both
+	// the registration and the flush are reached (helpers it calls are analysed in its context, so extracting the
+	// flush or the failure handling into methods of their own does not move the anchor)
+	flushReach := newReach(w, 3, a.flush)
+	var cands []*core.FuncInfo
+	for _, f := range append(reachFrom(w, []*core.FuncInfo{a.commit}, pDSSQL), a.commit) {
+		if f.Pkg.PkgPath != pDSSQL || w.IsTestFile(f.Decl.Pos()) {
 			continue
 		}
-		for _, cs := range w.Calls(f) {
-			if a.flush(cs.Static) {
-				a.steps = append(a.steps, f)
-				break
+		if flushReach.Hits(f.Obj) && a.reg.Hits(f.Obj) && !a.flush(f.Obj) && !isBranchRegister(w, f.Obj) {
+			cands = append(cands, f)
+		}
+	}
+	for _, f := range dedupFns(cands) {
+		deepest := true
+		for _, g := range cands {
+			if g != f && w.CallPath(f, func(x *types.Func) bool { return x == g.Obj }, 3) != nil {
+				deepest = false // f only passes on to g
 			}
+		}
+		if deepest {
+			a.steps = append(a.steps, f)
 		}
 	}
 	for _, n := range driverImplsIn(w, "pkg/datasource/sql", "ConnBeginTx") {
@@ -115,6 +127,9 @@ func checkC02(r *core.Run) {
 		return
 	}
 	var noDesc func(f *types.Func) bool
+	stepFlush := newReach(w, 3, a.flush)
+	stepCommit := newReach(w, 3, isDriverTxCommit)
+	stepRollback := newReach(w, 3, isDriverTxRollback)
 	classify := func(pkg *packages.Package, call *ast.CallExpr, callee *types.Func) []flow.Tag {
 		switch {
 		case isDriverTxCommit(callee):
@@ -123,12 +138,34 @@ func checkC02(r *core.Run) {
 			return []flow.Tag{"localrollback", "ended"}
 		case a.flush(callee):
 			return []flow.Tag{"flush"}
+		}
+		// a helper of this package that mixes several kinds of steps is not an event itself: it is analysed in the
+		// caller's context and its own calls are the events
+		if fi := w.Info(callee); fi != nil && fi.Pkg.PkgPath == pDSSQL {
+			kinds := 0
+			for _, rc := range []*reachCache{a.rep, a.reg, stepFlush, stepCommit, stepRollback} {
+				if rc.Hits(callee) {
+					kinds++
+				}
+			}
+			if kinds > 1 {
+				return nil
+			}
+		}
+		switch {
 		case a.rep.Hits(callee):
 			if v, ok := boolArg(pkg.TypesInfo, call, 0); ok {
 				if v {
 					return []flow.Tag{"reportdone"}
 				}
 				return []flow.Tag{"reportfail"}
+			}
+			// a wrapper around the report step: its flavour is the boolean every report call below it passes
+			switch reportFlavour(w, callee, a.rep, 2) {
+			case "false":
+				return []flow.Tag{"reportfail"}
+			case "true":
+				return []flow.Tag{"reportdone"}
 			}
 			return []flow.Tag{"report"}
 		case a.reg.Hits(callee):
@@ -671,4 +708,44 @@ func c02ReportFailed(r *core.Run) {
 	if n == 0 {
 		r.Undecided("C02.fail", core.ShortKey(f.Obj)+"(false) exits", w.Pos(f.Decl.Pos()), "no non-error exit found")
 	}
+}
+
+// reportFlavour: the boolean literal(s) with which the functions below f (depth frames, same package) call a
+// report step: "true", "false", or "" when mixed / unknown.
+func reportFlavour(w *core.World, f *types.Func, rep *reachCache, depth int) string {
+	seen := map[string]bool{}
+	var walk func(g *types.Func, d int)
+	walk = func(g *types.Func, d int) {
+		fi := w.Info(g)
+		if fi == nil || d < 0 {
+			return
+		}
+		for _, cs := range w.Calls(fi) {
+			if cs.Static == nil || !rep.Hits(cs.Static) {
+				continue
+			}
+			if v, ok := boolArg(fi.Pkg.TypesInfo, cs.Call, 0); ok {
+				if v {
+					seen["true"] = true
+				} else {
+					seen["false"] = true
+				}
+				continue
+			}
+			if w.Info(cs.Static) != nil && w.Info(cs.Static).Pkg == fi.Pkg {
+				walk(cs.Static, d-1)
+			} else {
+				seen["?"] = true
+			}
+		}
+	}
+	walk(f, depth)
+	if len(seen) == 1 {
+		for k := range seen {
+			if k != "?" {
+				return k
+			}
+		}
+	}
+	return ""
 }
